@@ -94,6 +94,18 @@ class HonestOracle(Oracle):
                 elif f.type == wf.RETIRE_CONNECTION_ID:
                     s["retire_delivered_to_me"].add(f["seq"])
 
+    def goal_reached(self):
+        # do not stop the run while a retirement is still owed (its retransmission may be waiting for
+        # a backed-off probe timeout): liveness is judged at quiescence or at the end of the fair budget
+        for ep in self.sim.endpoints:
+            s = self.st[ep.name]
+            peer = self.st[ep.peer.name]
+            if any(seq not in peer["retire_delivered_to_me"] for seq in s["retire_sent"]):
+                return False
+            if ep.handshake_complete and len(s["issued"]) < 7 + len(s["retire_delivered_to_me"]):
+                return False
+        return True
+
     def at_end(self, reason):
         sim = self.sim
         if reason in ("step-cap", "api-exception") or incomplete_streams(sim):
